@@ -1032,3 +1032,97 @@ B('pkgA_dispatch_loop_head_generator_shared_dict', ['C02'], 'R02.c',
 B('pkgA_dispatch_loop_head_generator_params_under_resources', ['C02'], 'R02.c',
   (A, "    def dispatch(self, request):\n", _ITER_MATCHES % "dict(path_params, **base_params)"),
   (A, _DISPATCH_HEAD_OLD, "        for route, params in self._iter_path_matches(request, url_path, base_params):\n"))
+
+
+# =================================================================== seeded round e: state that outlives a call / a binding
+# ------------------------------------------------------------------ sinter.get_fb: nothing left on the callable, memo keyed by the callable
+_FB_RET_OLD = ("    if drop_self and isinstance(f, types.MethodType):\n"
+               "        ret.args = ret.args[1:]  # discard \"self\" on methods\n"
+               "    return ret\n")
+_FB_DROP = ("    if drop_self and isinstance(f, types.MethodType):\n"
+            "        ret.args = ret.args[1:]  # discard \"self\" on methods\n")
+_FB_BUILD_OLD = "    ret = FunctionBuilder.from_func(f)\n"
+_FB_TABLE_OLD = "_INDENT = '    '\n"
+B('pkgA_fb_parked_on_the_function', ['C01', 'C02'], {'C01': 'R01.e', 'C02': 'R02.b'},
+  (S, _FB_RET_OLD, _FB_DROP + "    elif inspect.isfunction(f):\n        try:\n            f._sinter_fb = ret\n"
+                              "        except (AttributeError, TypeError):\n            pass\n    return ret\n"))
+B('pkgA_fb_parked_with_setattr', ['C01', 'C02'], {'C01': 'R01.e', 'C02': 'R02.b'},
+  (S, _FB_RET_OLD, _FB_DROP + "    if inspect.isfunction(f):\n        setattr(f, '_sinter_fb', ret)\n    return ret\n"))
+B('pkgA_fb_parked_in_function_dict', ['C01', 'C02'], {'C01': 'R01.e', 'C02': 'R02.b'},
+  (S, _FB_RET_OLD, _FB_DROP + "    func = f\n    if inspect.isfunction(func):\n        func.__dict__['_sinter_fb'] = ret\n    return ret\n"))
+_FB_MEMO_LOOKUP = ("    cache_key = %s\n"
+                   "    if %s:\n"
+                   "        try:\n"
+                   "            return _FB_CACHE[cache_key]\n"
+                   "        except KeyError:\n"
+                   "            pass\n"
+                   "\n")
+_FB_MEMO_STORE = "    if %s:\n        _FB_CACHE[cache_key] = ret\n    return ret\n"
+
+
+def _fb_memo(key, cond):
+    return ((S, _FB_TABLE_OLD, _FB_TABLE_OLD + "_FB_CACHE = {}\n"),
+            (S, _FB_BUILD_OLD, _FB_MEMO_LOOKUP % (key, cond) + _FB_BUILD_OLD),
+            (S, _FB_RET_OLD, _FB_DROP + _FB_MEMO_STORE % cond))
+
+
+T('pkgA_twin_fb_memo_keyed_by_the_function', ['C01', 'C02'], *_fb_memo("(f, drop_self)", "inspect.isfunction(f)"))
+B('pkgA_fb_memo_keyed_by_code_object', ['C01', 'C02'], {'C01': 'R01.e', 'C02': 'R02.b'},
+  *_fb_memo("(getattr(f, '__code__', None), drop_self)", "cache_key[0] is not None"))
+B('pkgA_fb_memo_keyed_by_id', ['C01', 'C02'], {'C01': 'R01.e', 'C02': 'R02.b'},
+  *_fb_memo("(id(f), drop_self)", "inspect.isfunction(f)"))
+B('pkgA_fb_memo_keyed_by_qualified_name', ['C02'], 'R02.b',
+  *_fb_memo("getattr(f, '__module__', None), getattr(f, '__qualname__', None)", "cache_key[1] is not None"))
+
+# ------------------------------------------------------------------ core.merge_middlewares: a list of its own
+_MERGE_HEAD_OLD = "    old = list(old)\n    merged = list(new)\n"
+T('pkgA_twin_merge_copies_by_slice_and_display', ALL4,
+  (C, _MERGE_HEAD_OLD, "    merged = [*new]\n"))
+B('pkgA_merge_accumulates_in_the_callers_list', ALL4, {'C01': 'R01.a', 'C02': 'R02.b', 'C03': 'R03.d', 'C04': 'R04.a'},
+  (C, _MERGE_HEAD_OLD, "    merged = new\n"))
+B('pkgA_merge_accumulates_in_named_alias', ['C01', 'C02'], {'C01': 'R01.a', 'C02': 'R02.b'},
+  (C, _MERGE_HEAD_OLD, "    outer = new\n    merged = outer\n"))
+B('pkgA_merge_writes_result_back_into_new', ['C02'], 'R02.b',
+  (C, "    return merged\n\n\nclass DummyMiddleware", "    new[:] = merged\n    return merged\n\n\nclass DummyMiddleware"))
+
+# ------------------------------------------------------------------ route / application: the stack is pinned at construction
+_ROUTE_MW_OLD = "        self.middlewares = list(kwargs.pop('middlewares', []))\n"
+_APP_MW_OLD = "        self.middlewares = list(middlewares or [])\n"
+T('pkgA_twin_route_middlewares_pinned_as_tuple', ['C03', 'C04'],
+  (R, _ROUTE_MW_OLD, "        self.middlewares = tuple(kwargs.pop('middlewares', ()))\n"))
+T('pkgA_twin_route_middlewares_pinned_by_display', ['C03'],
+  (R, _ROUTE_MW_OLD, "        given_middlewares = kwargs.pop('middlewares', [])\n        self.middlewares = [*given_middlewares]\n"))
+B('pkgA_route_keeps_the_callers_middleware_list', ['C03'], 'R03.d',
+  (R, _ROUTE_MW_OLD, "        self.middlewares = kwargs.pop('middlewares', [])\n"))
+B('pkgA_route_keeps_the_callers_list_or_default', ['C03'], 'R03.d',
+  (R, _ROUTE_MW_OLD, "        given_middlewares = kwargs.pop('middlewares', None)\n        self.middlewares = given_middlewares or []\n"))
+B('pkgA_application_keeps_the_callers_middleware_list', ['C03'], 'R03.d',
+  (A, _APP_MW_OLD, "        self.middlewares = middlewares or []\n"))
+
+# ------------------------------------------------------------------ core.make_middleware_chain: the unresolved set is computed on every path
+_EP_MAKE_OLD = ("    ep_chain, ep_args, ep_unres = make_chain(ep_funcs,\n"
+                "                                             ep_provides,\n"
+                "                                             endpoint,\n"
+                "                                             ep_avail,\n"
+                "                                             _INNER_NAME)\n")
+_RN_MAKE_OLD = ("    rn_chain, rn_args, rn_unres = make_chain(rn_funcs,\n"
+                "                                             rn_provides,\n"
+                "                                             render,\n"
+                "                                             rn_avail,\n"
+                "                                             _INNER_NAME)\n")
+_PHASE_FAST = ("def _make_phase_chain(funcs, provides, final_func, avail):\n"
+               "    if funcs:\n"
+               "        return make_chain(funcs, provides, final_func, avail, _INNER_NAME)\n"
+               "    required = set(get_arg_names(final_func, only_required=True))\n"
+               "    optional = set(get_arg_names(final_func)) - required\n"
+               "    return final_func, required | (optional & set(avail)), set()\n\n\n"
+               "def make_middleware_chain(")
+T('pkgA_twin_unresolved_set_sorted_before_test', ['C01', 'C04'],
+  (C, _EP_MAKE_OLD, _EP_MAKE_OLD + "    ep_unres = sorted(ep_unres)\n"))
+B('pkgA_phase_fast_path_reports_nothing', ['C01', 'C04'], {'C01': 'R01.b', 'C04': 'R04.e'},
+  (C, "def make_middleware_chain(", _PHASE_FAST),
+  (C, _EP_MAKE_OLD, "    ep_chain, ep_args, ep_unres = _make_phase_chain(ep_funcs, ep_provides, endpoint, ep_avail)\n"),
+  (C, _RN_MAKE_OLD, "    rn_chain, rn_args, rn_unres = _make_phase_chain(rn_funcs, rn_provides, render, rn_avail)\n"))
+B('pkgA_render_fast_path_constant_tuple', ['C01', 'C04'], {'C01': 'R01.b', 'C04': 'R04.e'},
+  (C, _RN_MAKE_OLD, "    if rn_funcs:\n" + _RN_MAKE_OLD.replace("    rn_chain", "        rn_chain").replace("\n     ", "\n         ") +
+      "    else:\n        rn_chain, rn_args, rn_unres = render, set(get_arg_names(render)) & rn_avail, ()\n"))
